@@ -225,7 +225,7 @@ class Which(Contract):
     standin = False
 
     def shape(self, b):
-        env = b.opt('env', lambda: b.obj('env', 'iface:env', closed=True))
+        env = b.opt('env', lambda: b.obj('env', 'iface:env', sealed=True))
         b.ghost('consulted', None)
         b.ghost('PATH', None)
         b.ghost('entries', None)
@@ -270,7 +270,8 @@ def register(reg):
     reg.add(IsExecutableFile)
     reg.add(Which)
     for nm, c in (('os.path.realpath', os_fn('RealPath')), ('os.path.dirname', os_fn('Dirname')),
-                  ('os.path.isfile', os_fn('IsFile', 'b')), ('os.access', os_fn('Access', 'b')),
+                  ('os.path.isfile', os_fn('IsFile', 'b')), ('os.path.exists', os_fn('Exists', 'b')),
+                  ('os.path.isdir', os_fn('IsDir', 'b')), ('os.access', os_fn('Access', 'b')),
                   ('os.path.join', os_fn('PathJoin'))):
         reg.add_extern(nm, c)
     reg.add_extern('os.stat', OsStat)
